@@ -937,6 +937,57 @@ fn run_bfs(off: u64, depth: usize, dedup: bool, quick: bool, rep: &mut Report) {
     );
 }
 
+/// Every history of exactly `depth` operations from the empty set, without storing states
+/// (depth-first, parallel over the first operation).  Returns the number of transitions.
+fn run_all_histories(off: u64, depth: usize, quick_alphabet: bool, rep: &mut Report) -> u64 {
+    let ops = e2_ops(off, quick_alphabet);
+    fn go(s: &St, off: u64, ops: &[Op], left: usize, hist: &mut Vec<Op>, rep: &mut Report, n: &mut u64) {
+        if left == 0 {
+            return;
+        }
+        for o in ops {
+            let out = eval(&s.m, &s.real, o);
+            *n += 1;
+            rep.case_nokey(&out.class);
+            hist.push(o.clone());
+            for (k, w) in out.viol {
+                let h: Vec<(u64, &Op)> = hist.iter().map(|o| (off, o)).collect();
+                rep.violation(&k, w, json!({"history": h}));
+            }
+            if let Some((m, real)) = out.next {
+                go(&St { m, real }, off, ops, left - 1, hist, rep, n);
+            }
+            hist.pop();
+        }
+    }
+    let init = St { m: M::fin(off, 0), real: BlockRanges::new() };
+    let parts: Vec<(Report, u64)> = ops
+        .par_iter()
+        .map(|o| {
+            let mut r = Report::new();
+            let mut n = 1u64;
+            let out = eval(&init.m, &init.real, o);
+            r.case_nokey(&out.class);
+            for (k, w) in out.viol {
+                r.violation(&k, w, json!({"history": [(off, o)]}));
+            }
+            if let Some((m, real)) = out.next {
+                let mut hist = vec![o.clone()];
+                go(&St { m, real }, off, &ops, depth - 1, &mut hist, &mut r, &mut n);
+            }
+            (r, n)
+        })
+        .collect();
+    let mut total = 0;
+    for (r, n) in parts {
+        rep.merge_in(r);
+        total += n;
+    }
+    rep.transitions += total;
+    rep.traces += total;
+    total
+}
+
 /// Replays a history of the E2 alphabet from the empty set.
 fn replay_history(off: u64, hist: &[Op], rep: &mut Report) {
     let mut s = St { m: M::fin(off, 0), real: BlockRanges::new() };
@@ -1019,10 +1070,15 @@ fn main() {
         let e1_evals = rep.evaluations;
         // E2: histories from the empty set.  (a) with de-duplication on the real value,
         // (b) every history of length <= 2 (q) / 3 (t) without de-duplication.
+        let mut undeduped = 0;
         for off in offs {
             run_bfs(off, ctx.tier.pick(4, 6), true, quick, &mut rep);
-            run_bfs(off, ctx.tier.pick(2, 3), false, quick, &mut rep);
+            undeduped += run_all_histories(off, ctx.tier.pick(2, 3), true, &mut rep);
+            if !quick {
+                undeduped += run_all_histories(off, 2, false, &mut rep);
+            }
         }
+        rep.extra("e2_histories_without_dedup_transitions", json!(undeduped));
         rep.extra("e1_evaluations", json!(e1_evals));
         rep.extra("e2_transitions", json!(rep.transitions));
         rep.extra("distinct_by_construction", json!(DISTINCT.load(Ordering::Relaxed) + rep.transitions));
@@ -1035,7 +1091,7 @@ fn main() {
         &ctx,
         rep,
         Spec {
-            rule: "E1: all 2^10 sets over heights off+1..=off+10 for off in {0, u64::MAX-10} x every operation (contains/len/is_empty/head/tail/left_of/right_of/partitions/iteration fwd,back,alternating/Display/serde/==/pop_head/pop_tail/headn/tailn/edges/insert_relaxed/remove_relaxed/union/difference/intersection in every operator form/complement and complement mixes) x every argument (heights: whole universe, its two outside neighbours, 0, 1, u64::MAX; n in 0..=12 and u64::MAX-1, u64::MAX; all 100 (a,b) pairs inside the universe plus ranges from 0; second operand: quick = all sets over 6 heights embedded at both ends of the universe (127), thorough = all 1024 sets); plus from_vec/TryFrom/Deserialize on every list of <=2 ranges with endpoints in {0} ∪ 5 heights, and the single-range helpers on all pairs of ranges. E2: BFS over histories of value-producing operations from the empty set, dedup on the real representation to depth 4 (q) / 6 (t) (reaches a fixpoint: all 1024 sets), and without dedup to depth 2 (q) / 3 (t). distinct = (set, operation, argument) by construction; non-trivial = stored set non-empty",
+            rule: "E1: all 2^10 sets over heights off+1..=off+10 for off in {0, u64::MAX-10} x every operation (contains/len/is_empty/head/tail/left_of/right_of/partitions/iteration fwd,back,alternating/Display/serde/==/pop_head/pop_tail/headn/tailn/edges/insert_relaxed/remove_relaxed/union/difference/intersection in every operator form/complement and complement mixes) x every argument (heights: whole universe, its two outside neighbours, 0, 1, u64::MAX; n in 0..=12 and u64::MAX-1, u64::MAX; all 100 (a,b) pairs inside the universe plus ranges from 0; second operand: quick = all sets over 6 heights embedded at both ends of the universe (127), thorough = all 1024 sets); plus from_vec/TryFrom/Deserialize on every list of <=2 ranges with endpoints in {0} ∪ 5 heights, and the single-range helpers on all pairs of ranges. E2: BFS over histories of value-producing operations from the empty set, dedup on the real representation to depth 4 (q) / 6 (t) (reaches a fixpoint: all 1024 sets), and every history without dedup: length <= 2 (q) / <= 3 with the small operand alphabet and <= 2 with the large one (t). distinct = (set, operation, argument) by construction; non-trivial = stored set non-empty",
             assumptions: &[
                 "heights outside the two 10-height universes are represented only by the infinite tails that complement produces",
                 "left_of(0)/right_of(0): height 0 is not a height; the debug_assert on the argument (debug builds only) is accepted as outcome class debug-precondition-height-0, any other value than None would be a violation",
